@@ -347,6 +347,8 @@ func (b *Backoffer) UpdateUsingForked(forked *Backoffer) {
 			b.errorsNum = forked.errorsNum
 			b.backoffSleepMS = forked.backoffSleepMS
 			b.backoffTimes = forked.backoffTimes
+			// The kinds that slept are looked up in configs when the budget is exhausted.
+			b.configs = forked.configs
 			break
 		}
 	}
